@@ -213,8 +213,8 @@ fn lying_counts(tag: &str) {
         let (tx, rx) = std::sync::mpsc::channel();
         let b2 = bytes.clone();
         std::thread::spawn(move || { let mut c = Cursor::new(b2); let r = std::panic::catch_unwind(std::panic::AssertUnwindSafe(|| deserialize(&mut c).map(|v| v.len()))); let _ = tx.send(format!("{:?}", r.map_err(|_| "PANIC"))); });
-        match rx.recv_timeout(std::time::Duration::from_secs(20)) {
-            Err(_) => fail(format!("[{}] deserialize did not return within 20 s on {} bytes: {} ({:02x?})", tag, bytes.len(), what, bytes)),
+        match rx.recv_timeout(std::time::Duration::from_secs(60)) {
+            Err(_) => fail(format!("[{}] deserialize did not return within 60 s on {} bytes: {} ({:02x?})", tag, bytes.len(), what, bytes)),
             Ok(r) => if r.contains("PANIC") { fail(format!("[{}] deserialize panicked on {} ({:02x?})", tag, what, bytes)) },
         }
     }
